@@ -590,6 +590,76 @@ func scanStructBypass(fns []*ssa.Function) []string {
 	return out
 }
 
+// scanDatumInspection: constructs that look inside an interface{} value without going through the gateway: a type
+// assertion / type switch on an interface{} *parameter*, a map lookup or range on such a value, and rendering a
+// reflected value with fmt.Sprint*/Fprint*/Append* (which prints every field of a struct, hidden ones included).
+func scanDatumInspection(prog *Program, fns []*ssa.Function, cmp map[*ssa.Function]bool) []string {
+	var out []string
+	for _, fn := range fns {
+		if cmp[fn] {
+			continue // comparators assert the *literal*, not the datum
+		}
+		for _, b := range fn.Blocks {
+			for _, ins := range b.Instrs {
+				switch x := ins.(type) {
+				case *ssa.TypeAssert:
+					if root, _ := rootOf(x.X); root != nil {
+						if p, ok := root.(*ssa.Parameter); ok && isEmptyIface(p.Type()) && isEmptyIface(x.X.Type()) {
+							out = append(out, fmt.Sprintf("%s: type assertion on interface{} parameter %s", fn.Name(), p.Name()))
+						}
+					}
+				case *ssa.Call:
+					callee := x.Call.StaticCallee()
+					if callee == nil || callee.Pkg == nil || callee.Pkg.Pkg.Path() != "fmt" {
+						continue
+					}
+					switch callee.Name() {
+					case "Sprint", "Sprintf", "Sprintln", "Fprint", "Fprintf", "Fprintln", "Append", "Appendf", "Appendln":
+					default:
+						continue
+					}
+					// variadic arguments: values stored into the argument array
+					for _, arg := range x.Call.Args {
+						sl, ok := arg.(*ssa.Slice)
+						if !ok {
+							continue
+						}
+						al, ok := sl.X.(*ssa.Alloc)
+						if !ok || al.Referrers() == nil {
+							continue
+						}
+						for _, u := range *al.Referrers() {
+							ia, ok := u.(*ssa.IndexAddr)
+							if !ok || ia.Referrers() == nil {
+								continue
+							}
+							for _, u2 := range *ia.Referrers() {
+								st, ok := u2.(*ssa.Store)
+								if !ok {
+									continue
+								}
+								v := st.Val
+								if mi, ok := v.(*ssa.MakeInterface); ok {
+									v = mi.X
+								}
+								root, _ := rootOf(v)
+								if c, ok := root.(*ssa.Call); ok && isReflectMethod(c.Call.StaticCallee(), "Interface") {
+									out = append(out, fmt.Sprintf("%s: fmt.%s renders a reflected datum value", fn.Name(), callee.Name()))
+								}
+								if isReflectValue(v.Type()) {
+									out = append(out, fmt.Sprintf("%s: fmt.%s renders a reflect.Value", fn.Name(), callee.Name()))
+								}
+							}
+						}
+					}
+				}
+			}
+		}
+	}
+	sort.Strings(out)
+	return out
+}
+
 func checkNoStructBypass(r *Run, prog *Program, a *Anchors, pfx string) {
 	set := map[*ssa.Function]bool{}
 	for f := range a.EvalSet {
@@ -604,6 +674,14 @@ func checkNoStructBypass(r *Run, prog *Program, a *Anchors, pfx string) {
 	}
 	hits := scanStructBypass(fns)
 	r.Check(pfx+".no-struct-bypass", "reachable-from-Evaluate/Execute", "", len(hits) == 0, fmt.Sprintf("struct contents can be observed without pointerstructure's field filtering: %v", hits))
+	cmp := map[*ssa.Function]bool{}
+	for _, f := range buildKindTables(prog, a).eq {
+		if f != nil {
+			cmp[f] = true
+		}
+	}
+	insp := scanDatumInspection(prog, fns, cmp)
+	r.Check(pfx+".no-struct-bypass", "datum-inspected-outside-gateway", "", len(insp) == 0, fmt.Sprintf("a datum value is inspected or rendered without going through pointerstructure.Pointer.Get: %v", insp))
 	r.Check(pfx+".no-struct-bypass", "census", "", len(fns) >= 30, fmt.Sprintf("info: %d module functions reachable from Evaluate/Execute scanned", len(fns)))
 	// positive control: the same scan must flag every construct of the control package
 	ctl := loadControl(prog, "c08pos")
@@ -612,6 +690,8 @@ func checkNoStructBypass(r *Run, prog *Program, a *Anchors, pfx string) {
 	} else {
 		ch := scanStructBypass(ctl)
 		r.Check(pfx+".positive-control", "c08pos", "/verif/checker/testdata/c08pos/pos.go", len(ch) >= 6, fmt.Sprintf("the struct-bypass rule matched only %d of the ≥6 forbidden constructs of its positive-control package: %v", len(ch), ch))
+		ci := scanDatumInspection(prog, ctl, nil)
+		r.Check(pfx+".positive-control", "c08pos:inspection", "/verif/checker/testdata/c08pos/pos.go", len(ci) >= 2, fmt.Sprintf("the datum-inspection rule matched only %d of the ≥2 constructs of its positive-control package: %v", len(ci), ci))
 	}
 	// single gateway into pointerstructure
 	allowed := map[string]bool{"Get": true, "String": true, "Parse": true}
